@@ -17,10 +17,31 @@ PID = 'C07'
 LEAN_TARGETS = ['CfVerif.Props.C07']
 PROPS_MODULES = ['CfVerif.Props.C07']
 DRIVER = 'Driver/C07.lean'
-REQUIRED_THEOREMS = []
-TRUSTED = []
-ASSUMPTIONS = []
-RULE = ''
+REQUIRED_THEOREMS = ['CfVerif.C07.' + t for t in (
+    'gen_dispatch_snapshot', 'gen_remove_snapshot', 'gen_dispatch_catches', 'gen_run_shape', 'gen_container',
+    'gen_remove_compares', 'gen_params', 'gen_wrappers', 'gen_defaults', 'gen_getters', 'gen_caller',
+    'match_iff', 'match_bits', 'port_callback_matches_iff', 'remove_pattern_is_add_pattern',
+    'dispatch_calls', 'dispatch_exactly_once', 'not_registered_not_called', 'raise_isolated', 'later_packets_processed',
+    'remove_only_that_registration', 'dispatch_after_remove', 'packets_in_order', 'packets_in_order_static',
+    'caller_add_no_duplicates', 'caller_remove_only_that', 'caller_call_snapshot',
+    'live_dispatch_counterexample', 'live_remove_counterexample')]
+TRUSTED = ['harness/corr/c07.py extractor + correspondence + spec twin',
+           'Python list semantics as modelled: list(l) is an atomic copy, append/remove(x) act on the first ==-equal element, a list '
+           'iterator is an index compared with the current length on every step',
+           'namedtuple equality is field-wise equality; callbacks are compared with ==, modelled as equality of ids',
+           'a callback body is a finite list of register/unregister/raise actions chosen as an arbitrary function of the history']
+ASSUMPTIONS = ['exceptions raised by all-packet callbacks (cf.packet_received) escape run() and end the dispatcher thread: modelled '
+               '(Ev.died) and agreed with the code, but outside the wording of C07 (port callbacks); later_packets_processed assumes none raises',
+               'registry operations from OTHER threads are modelled between packets (ext ops) and as part of callback bodies, not at '
+               'bytecode granularity inside the dispatch loop',
+               'callbacks that mutate the packet object (pk.port = ...) are outside the model',
+               'BaseException subclasses that are not Exception (KeyboardInterrupt, SystemExit) raised by a port callback are not caught by the code; not modelled']
+RULE = ('cases = one dispatcher per case: registrations (<= 8 initial, header/port/default-mask/keyword/Crazyflie-wrapper spellings, duplicates '
+        'included), per-invocation callback scripts (add / remove self, earlier, later, absent / raise / Caller add, remove) for port and '
+        'all-packet callbacks, 1-3 packet batches with operations from outside between batches, run synchronously or through the real '
+        'thread; systematic families: every subset of raising callbacks (n <= 5), every (callback i removes registration j) for n <= 4, '
+        'registrations added during dispatch, all 256 headers against assorted masks, Caller corner cases.  distinct = distinct request '
+        'lines; non-trivial = at least one port callback was invoked')
 
 CF = 'cflib/crazyflie/__init__.py'
 CB = 'cflib/utils/callbacks.py'
@@ -312,7 +333,7 @@ class RealEnv:
     link and instrumented callbacks.  mode 'sync': run() is called in the caller's thread and ends by _Stop;
     mode 'thread': the real thread is started; the link blocks it on a condition variable between batches."""
 
-    def __init__(self, mode='sync'):
+    def __init__(self, mode='sync', trace_ops=False):
         import logging
         import threading
         import cflib.crazyflie as cfmod
@@ -320,6 +341,7 @@ class RealEnv:
         from cflib.crtp.crtpstack import CRTPPacket
         self.CRTPPacket = CRTPPacket
         self.mode = mode
+        self.trace_ops = trace_ops
         self.log = []
         self.tbl = {}
         self.count = {}
@@ -419,6 +441,8 @@ class RealEnv:
             raise Scripted()
         if a[0] == 'A':
             self.cf.packet_received.add_callback(self.cb(a[1]))
+            if self.trace_ops:
+                self.log.append('A+%d' % a[1])
             return
         if a[0] == 'R':
             try:
@@ -426,6 +450,8 @@ class RealEnv:
             except ValueError:
                 self.log.append('!')
                 raise
+            if self.trace_ops:
+                self.log.append('A-%d' % a[1])
             return
         kind, how, port, pm, ch, cm, cid = a
         tgt = self.cf if how.startswith('cf-') else self.h
@@ -441,6 +467,8 @@ class RealEnv:
             f(cb=c, port=port, channel=ch, channel_mask=cm, port_mask=pm)
         else:
             f(c, port, ch, pm, cm)
+        if self.trace_ops:
+            self.log.append('%s%d:%d:%d:%d:%d' % ('+' if kind == 'a' else '-', port, pm, ch, cm, cid))
 
     def feed(self, hdrs):
         n0 = len(self.log)
@@ -471,9 +499,9 @@ class RealEnv:
         return 'ok ' + (' '.join(out) if out else '-')
 
 
-def real_case(case):
+def real_case(case, trace_ops=False):
     """replies of the real code to the ext/pkts ops of a case (None for beh ops)"""
-    env = RealEnv(case.get('mode', 'sync'))
+    env = RealEnv(case.get('mode', 'sync'), trace_ops)
     res = [None]
     try:
         for op in case['ops']:
@@ -487,6 +515,8 @@ def real_case(case):
                     res.append('ok')
                 except ValueError:
                     res.append('err value_error')
+                if trace_ops:
+                    res[-1] += ' ' + ' '.join(t for t in env.log[n0:] if t != '!')
                 del env.log[n0:]
             else:
                 res.append(env.feed(op[1]))
@@ -679,7 +709,7 @@ def gen_cases(ctx):
     rng = ctx.rng
     thorough = ctx.tier == 'thorough'
     cases = load_corpus() + gen_families(rng, thorough)
-    for _ in range(12000 if thorough else 1500):
+    for _ in range(50000 if thorough else 5000):
         cases.append(gen_random_case(rng, big=rng.random() < 0.2))
     return cases
 
@@ -714,11 +744,22 @@ def correspond(ctx):
     for c in cases:
         lines += case_lines(c)
     replies = ctx.lean(DRIVER, lines)
+    # the same cases under the pre-fix (live iteration) model: how many cases tell the two disciplines apart
+    lines_live = []
+    for c in cases:
+        cl = case_lines(c)
+        lines_live += [cl[0], 'mode original'] + cl[1:]
+    replies_live = ctx.lean(DRIVER, lines_live)
     pos = 0
+    pos_live = 0
     for c in cases:
         cl = case_lines(c)
         model = replies[pos:pos + len(cl)]
         pos += len(cl)
+        live = replies_live[pos_live:pos_live + len(cl) + 1]
+        pos_live += len(cl) + 1
+        if [live[0]] + live[2:] != model:
+            ctx.count('cases-distinguishing-live-from-snapshot-iteration')
         real = real_case(c)
         ctx.count('family:' + c['family'])
         ctx.count('mode:' + c.get('mode', 'sync'))
@@ -752,5 +793,248 @@ def correspond(ctx):
             ctx.disagree('dispatch:' + c['family'], {'lines': cl, 'at': bad[0]}, bad[1][:400], bad[2][:400])
 
 
+# ---- direct evaluation of the property on the real code (failing-input search) -------------------------
+def spec_match(f, h):
+    """independent matcher: CRTP header byte = port nibble, two reserved bits, two channel bits"""
+    return f[0] == ((h >> 4) & f[1]) and f[2] == ((h & 3) & f[3])
+
+
+def is_subsequence(a, b):
+    it = iter(b)
+    return all(any(x == y for y in it) for x in a)
+
+
+def spec_eval(case):
+    """Python twin of Spec/C07 (SpecHolds per dispatch + arrival order + liveness + Caller.call over a copy),
+    evaluated on the REAL code's observable trace.  The case must use one callback id per registration and must
+    not contain raising all-packet callbacks.  Returns a list of (key, what, detail)."""
+    replies = real_case(case, trace_ops=True)
+    bad = []
+    regs = []            # spec-level registry: added and not since removed
+    alls = []
+    fed = []
+    toks = []
+
+    def apply_op(t):
+        nonlocal regs
+        if t.startswith('A+'):
+            c = int(t[2:])
+            if c not in alls:
+                alls.append(c)
+        elif t.startswith('A-'):
+            alls.remove(int(t[2:]))
+        elif t[0] == '+':
+            regs.append(tuple(int(x) for x in t[1:].split(':')))
+        elif t[0] == '-':
+            f = tuple(int(x) for x in t[1:].split(':'))
+            regs = [r for r in regs if r != f]
+
+    class Disp:
+        pass
+    cur = None
+
+    def close():
+        d = cur
+        if d is None:
+            return
+        h = d.h
+        if d.r0 is None:
+            d.r0 = list(regs)     # nobody was called: no port callback body ran, the registry is still the one at the start
+        if d.allcalls != d.a0:
+            bad.append(('caller-copy', 'all-packet callbacks invoked %s, registered at the start of the call %s' % (d.allcalls, d.a0), h))
+        for r in d.r0:
+            if r in d.removed:
+                continue          # loose: removed during this dispatch
+            want = 1 if spec_match(r, h) else 0
+            got = d.calls.count(r)
+            if got != want:
+                if want == 1 and got == 0 and d.removed:
+                    bad.append(('D7-live-iteration-skip', 'registration %s matches header %d, was registered before and throughout the '
+                                'dispatch, and did not get the packet after a callback unregistered %s' % (r, h, sorted(d.removed)), h))
+                elif want == 1 and got == 0:
+                    bad.append(('missed-delivery', 'registration %s matches header %d and did not get the packet' % (r, h), h))
+                elif want == 0:
+                    bad.append(('non-matching-called', 'registration %s does not match header %d and was called' % (r, h), h))
+                else:
+                    bad.append(('delivered-twice', 'registration %s got the packet %d times' % (r, got), h))
+        for r in set(d.calls):
+            if d.calls.count(r) > 1:
+                bad.append(('delivered-twice', 'registration %s got the packet %d times' % (r, d.calls.count(r)), h))
+            if not spec_match(r, h):
+                bad.append(('non-matching-called', 'registration %s does not match header %d and was called' % (r, h), h))
+            if r not in d.r0 and r not in d.added:
+                bad.append(('unregistered-called', 'registration %s is not registered and was called' % (r,), h))
+        if not is_subsequence([r for r in d.calls if r in d.r0], d.r0):
+            bad.append(('out-of-order', 'calls %s not in registration order %s' % (d.calls, d.r0), h))
+
+    owner = {}
+    for op in case['ops']:
+        acts = op[3] if op[0] == 'beh' else [op[1]] if op[0] == 'ext' else []
+        for a in acts:
+            if a[0] == 'a':
+                owner.setdefault(a[6], set()).add(tuple(a[2:7]))
+    for op, rep in zip(case['ops'], replies[1:]):
+        if op[0] == 'beh':
+            continue
+        if op[0] == 'ext':
+            for t in rep.split(' ')[1:]:
+                apply_op(t)
+            continue
+        fed += op[1]
+        for t in rep.split(' ')[1:]:
+            toks.append(t)
+            if t == '-':
+                continue
+            if t[0] == 'P':
+                close()
+                cur = Disp()
+                cur.h, cur.a0, cur.r0 = int(t[1:]), list(alls), None
+                cur.allcalls, cur.calls, cur.removed, cur.added = [], [], set(), []
+            elif cur is None:
+                bad.append(('event-without-packet', t, None))
+            elif t == 'D':
+                bad.append(('dispatcher-died', 'an exception escaped run()', cur.h))
+            elif t == 'WRONG-PACKET':
+                bad.append(('wrong-packet', 'callback received an object that is not the packet being dispatched', cur.h))
+            elif t == 'THREAD-NOT-ALIVE':
+                bad.append(('dispatcher-died', 'dispatcher thread not alive', cur.h))
+            elif t in ('!', 'L'):
+                pass
+            elif t[0] == 'A':
+                apply_op(t)
+            elif t[0] == 'a':
+                cur.allcalls.append(int(t[1:]))
+            elif t[0] == 'c':
+                if cur.r0 is None:
+                    cur.r0 = list(regs)       # the registry when the port dispatch of this packet starts
+                o = owner.get(int(t[1:]), set())
+                if len(o) != 1:
+                    raise AssertionError('search case must use one callback id per registration')
+                cur.calls.append(next(iter(o)))
+            else:                             # '+' / '-': a callback body changed the registry
+                f = tuple(int(x) for x in t[1:].split(':'))
+                if cur.r0 is not None:        # ... during the port dispatch (otherwise: in an all-packet callback, before it)
+                    if t[0] == '-':
+                        cur.removed.add(f)
+                    else:
+                        cur.added.append(f)
+                apply_op(t)
+        close()
+        cur = None
+    got_p = [int(t[1:]) for t in toks if t[0] == 'P']
+    if got_p != fed:
+        bad.append(('packet-not-processed', 'packets fed %s, packets taken in order %s' % (fed, got_p), None))
+    return bad
+
+
+D7_WITNESS = {'mode': 'sync', 'family': 'D7-witness', 'ops': [
+    ('ext', ('a', 'port', 9, 0xFF, 0, 0, 1)), ('ext', ('a', 'port', 9, 0xFF, 0, 0, 2)), ('ext', ('a', 'port', 9, 0xFF, 0, 0, 3)),
+    ('beh', 1, 0, [('r', 'port', 9, 0xFF, 0, 0, 1)]), ('pkts', [0x90, 0x90])]}
+
+
+def gen_search_case(rng):
+    """distinct registrations, one callback id per registration (so the trace identifies registrations); callbacks
+    remove self / earlier / later / fresh registrations, add fresh ones and raise; non-raising all-packet callbacks"""
+    hot = [rng.randrange(16) for _ in range(rng.choice([1, 1, 2]))]
+    ops, regs, seen = [], [], set()
+    nxt = [1]
+
+    def fresh():
+        while True:
+            f = rand_fields(rng, hot)
+            if rng.random() < 0.5:
+                f = (rng.choice(hot), f[1] | 0x0F, f[2], f[3] if rng.random() < 0.5 else 0)    # likely to match hot packets
+                f = (f[0], f[1], f[2] & f[3], f[3])
+            r = f + (nxt[0],)
+            nxt[0] += 1
+            return r
+    for _ in range(rng.randrange(1, 9)):
+        r = fresh()
+        regs.append(r)
+        ops.append(('ext', mk_reg_act('a', how_for(rng, r[1], r[2], r[3]), *r)))
+    alls = [100 + i for i in range(rng.choice([0, 0, 1, 2]))]
+    for c in alls:
+        ops.append(('ext', ('A', c)))
+    used = set()
+    for _ in range(rng.choice([0, 1, 2, 3, 4, 6])):
+        pos = rng.randrange(len(regs))
+        cid, k = regs[pos][4], rng.choice([0, 0, 0, 1])
+        if (cid, k) in used:
+            continue
+        used.add((cid, k))
+        acts = []
+        for _ in range(rng.choice([1, 1, 2, 3])):
+            r = rng.random()
+            if r < 0.5:
+                kind = rng.choice(['self', 'earlier', 'later', 'any'])
+                t = regs[pos] if kind == 'self' else regs[rng.randrange(0, pos + 1)] if kind == 'earlier' else \
+                    regs[rng.randrange(pos, len(regs))] if kind == 'later' else rng.choice(regs)
+                if rng.random() < 0.25:
+                    # near miss: differs from a registration in exactly one of the five fields -> must remove nothing
+                    fi = rng.randrange(5)
+                    alt = {0: (t[0] + 1) % 16, 1: t[1] ^ rng.choice([1, 0x10, 0xF0]), 2: (t[2] + 1) % 4,
+                           3: t[3] ^ rng.choice([1, 2, 0xFC]), 4: rng.choice(regs)[4]}[fi]
+                    t2 = t[:fi] + (alt,) + t[fi + 1:]
+                    if t2 not in regs:
+                        t = t2
+                acts.append(mk_reg_act('r', how_for(rng, t[1], t[2], t[3]), *t))
+            elif r < 0.8:
+                t = fresh()
+                regs.append(t)
+                acts.append(mk_reg_act('a', how_for(rng, t[1], t[2], t[3]), *t))
+            else:
+                acts.append(('x',))
+                break
+        ops.append(('beh', cid, k, acts))
+    if alls and rng.random() < 0.5:
+        c = rng.choice(alls)
+        a = rng.choice([('A', 100 + rng.randrange(4)), ('R', c), mk_reg_act('r', 'full', *rng.choice(regs))])
+        ops.append(('beh', c, rng.choice([0, 1]), [a]))
+    for b in range(rng.choice([1, 2, 3])):
+        ops.append(('pkts', [rand_hdr(rng, hot) for _ in range(rng.choice([1, 2, 3, 4]))]))
+    return {'mode': 'thread' if rng.random() < 0.1 else 'sync', 'ops': ops, 'family': 'search-random'}
+
+
 def search(ctx):
-    pass
+    rng = ctx.rng
+    cases = [D7_WITNESS]
+    for c in load_corpus():
+        if c.get('search'):
+            cases.append(c)
+    # every (i removes j) on one port, also followed by a raise; every subset of raisers
+    for n in (2, 3, 4):
+        for i in range(n):
+            for j in range(n):
+                for extra in ([], [('x',)]):
+                    port = rng.randrange(16)
+                    ops = [('ext', mk_reg_act('a', 'port', port, 0xFF, 0, 0, k + 1)) for k in range(n)]
+                    ops.append(('beh', i + 1, 0, [mk_reg_act('r', 'port', port, 0xFF, 0, 0, j + 1)] + extra))
+                    ops.append(('pkts', [port << 4, (port << 4) | 1]))
+                    cases.append({'mode': 'sync', 'ops': ops, 'family': 'search-remove'})
+    for n in (1, 2, 3, 4):
+        for mask in range(1 << n):
+            port = rng.randrange(16)
+            ops = [('ext', mk_reg_act('a', 'port', port, 0xFF, 0, 0, k + 1)) for k in range(n)]
+            ops += [('beh', k + 1, 0, [('x',)]) for k in range(n) if (mask >> k) & 1]
+            ops.append(('pkts', [port << 4, (port << 4) | 2, ((port + 1) % 16) << 4]))
+            cases.append({'mode': 'sync', 'ops': ops, 'family': 'search-raise'})
+    # all 256 headers against assorted masks (independent matcher)
+    for _ in range(8 if ctx.tier == 'quick' else 40):
+        hot = [rng.randrange(16)]
+        ops = []
+        for k in range(3):
+            f = rand_fields(rng, hot)
+            ops.append(('ext', mk_reg_act('a', how_for(rng, f[1], f[2], f[3]), f[0], f[1], f[2], f[3], k + 1)))
+        ops.append(('pkts', list(range(256))))
+        cases.append({'mode': 'sync', 'ops': ops, 'family': 'search-headers'})
+    for _ in range(3000 if ctx.tier == 'quick' else 30000):
+        cases.append(gen_search_case(rng))
+    reported = set()
+    for c in cases:
+        ctx.count('search:' + c['family'])
+        for key, what, h in spec_eval(c):
+            if (key, c['family']) in reported and c['family'] != 'D7-witness':
+                ctx.count('search-violations-suppressed')
+                continue
+            reported.add((key, c['family']))
+            ctx.witness(key, what, {'case': case_lines(c), 'mode': c['mode'], 'header': h, 'family': c['family']})
